@@ -6,6 +6,7 @@ use crate::core::{KmacSignature, Tag};
 use crate::verif_model::toy_group::{ToyPoint, ToyScalar, P};
 use crate::verif_model::toy_kem::{ToyDk, ToyEnc};
 use cosmian_crypto_core::bytes_ser_de::{Deserializer, Serializable, Serializer};
+use cosmian_crypto_core::Secret;
 
 fn elt() -> u8 {
     let v: u8 = kani::any();
